@@ -40,6 +40,9 @@ REQUIRED_THEOREMS = [
     "input_object_state", "input_object_state_shipped_refuted",
     # open finding copied by the model: proved negation on the witness
     "triangulate_non_regular_refuted",
+    # round 3: histories, border loops, components, structural translation sites
+    "history_independent_of_cached_state", "history_coherent", "border_successor_loop", "border_loops_preserved_loop",
+    "components_preserved_loop", "centres_follow_source", "fan_indices_follow_source", "structure_follows_source",
     # bridges to the translated tables of subdivision.py
     "loop_pattern_follows_source", "quads_pattern_follows_source", "quad_cut_pattern_follows_source",
     "cell_fan_pattern_follows_source", "face_split_pattern_follows_source",
@@ -51,6 +54,9 @@ TRUSTED = [
     "float rounding of midpoints/barycentres not modelled (exact Rat in the model; tolerance 1e-9*scale+1e-12)",
     "Python set iteration order in loop_subdivision's edge set is forgotten by the comparator (position bijection)",
     "independent routine vlib/gen/mesh.py: surface_stats (manifoldness, Euler characteristic, border loops, components)",
+    "ast translator of vlib/props/c13.py: literal refinement tables, centre expressions (divisors), new-vertex numbering and "
+    "pass order, __init__/__enter__/__exit__ steps of both editors, fan range / index expressions (refuses other shapes)",
+    "float32 inputs are compared at relative tolerance 3e-6 (the representation rounds centres to 24 bits)",
 ]
 ASSUMPTIONS = [
     "agreement model/implementation is established on the scenarios explored in this run only",
@@ -62,8 +68,14 @@ ASSUMPTIONS = [
 ]
 RULE = ("surfaces from the shared generator (tri/quad/polygon, closed/bordered, genus 0-2, several components; flat convex "
         "variants), tet meshes (single, pair, fans, Kuhn grids; positive/negative/mixed orientation), polylines; 1-4 "
-        "operations inside one editing block with ids valid per the documented counts; connectivity queried before editing "
-        "or not; non-trivial = distinct scenario whose operations all returned and produced >= 1 new element")
+        "operations inside one editing block with ids valid per the documented counts, incl. loop_subdivision(0) / "
+        "subdivide_triangles_6(0); HISTORIES: 1-3 blocks in a row on the same mesh object (the result of a block is the input "
+        "of the next), with fresh editors or the same editor object, connectivity / boundary data / kind flags queried "
+        "before the first block and between blocks, split_double_boundary_edges_triangles followed by a block; "
+        "REPRESENTATIONS: coordinates as Python floats, Python ints, int64 / int32 / float32 rows, int lists / tuples "
+        "(integer families have exactly integral coordinates), elements as lists, tuples, numpy rows, numpy int32 scalars; "
+        "every name the caller holds is checked by value after every block; non-trivial = distinct scenario whose "
+        "operations all returned and produced >= 1 new element")
 
 
 # ------------------------------------------------------------------------------------------------
@@ -99,24 +111,75 @@ def snap(m, t):
     return s
 
 
+def all_blocks(case):
+    """the editing blocks of a scenario, in order (`ops` is the first, `blocks` the following ones)"""
+    return [case["ops"]] + [list(b) for b in case.get("blocks", [])]
+
+
+def all_ops(case):
+    return [op for b in all_blocks(case) for op in b]
+
+
+def coords_class(case):
+    c = (case.get("rep") or {}).get("coords", "float")
+    return "int" if c in ("pyint", "int64", "int32", "intlist", "inttuple") else c
+
+
+def rel_tol(case):
+    """float32 coordinates: centres are rounded to 24 bits by the representation itself (not a violation)"""
+    return 3e-6 if coords_class(case) == "float32" else 1e-9
+
+
 def build(case):
-    _M()
-    if case["t"] == "surf": return G.build_surface(case)
-    if case["t"] == "vol": return G.build_volume(case)
-    return G.build_polyline(case)
+    """Builds the mouette object; `rep` selects the representation of coordinates and of elements."""
+    M = _M()
+    import numpy as np
+    rep = case.get("rep")
+    if not rep:
+        if case["t"] == "surf": return G.build_surface(case)
+        if case["t"] == "vol": return G.build_volume(case)
+        return G.build_polyline(case)
+    co, el = rep.get("coords", "float"), rep.get("elems", "list")
+
+    def vert(v):
+        if co == "float": return M.Vec(*[float(c) for c in v])
+        if co == "pyint": return M.Vec(*[int(c) for c in v])
+        if co == "int64": return np.array([int(c) for c in v], dtype=np.int64)
+        if co == "int32": return np.array([int(c) for c in v], dtype=np.int32)
+        if co == "float32": return np.array(v, dtype=np.float32)
+        if co == "intlist": return [int(c) for c in v]
+        if co == "inttuple": return tuple(int(c) for c in v)
+        raise AssertionError(co)
+
+    def elem(e):
+        if el == "list": return [int(i) for i in e]
+        if el == "tuple": return tuple(int(i) for i in e)
+        if el == "nprow": return np.array(e, dtype=np.int64)
+        if el == "npint32": return [np.int32(i) for i in e]
+        raise AssertionError(el)
+    d = M.mesh.RawMeshData()
+    d.vertices += [vert(v) for v in case["V"]]
+    if case["t"] == "surf":
+        d.faces += [elem(f) for f in case["F"]]; return M.mesh.SurfaceMesh(d)
+    if case["t"] == "vol":
+        d.cells += [elem(c) for c in case["C"]]; return M.mesh.VolumeMesh(d)
+    d.edges += [tuple(elem(e)) if el != "nprow" else elem(e) for e in case["E"]]
+    return M.mesh.PolyLine(d)
 
 
 def probe(m, t):
-    """connectivity queried before editing (fills the lazy caches of the input object)"""
+    """connectivity, boundary data and mesh-kind flags queried before editing (fills every lazy cache of the object)"""
     c = m.connectivity
     if t == "poly":
-        c.vertex_to_vertices(0); c.edge_id(*m.edges[0]); return
+        c.vertex_to_vertices(0); c.edge_id(*m.edges[0]); c.vertex_to_edges(0); return
     c.vertex_to_vertices(0); c.edge_id(*m.edges[0]); c.face_id(*m.faces[0]); c.vertex_to_faces(m.faces[0][0])
     c.direct_face(m.faces[0][0], m.faces[0][1])
     if t == "surf":
-        m.boundary_edges; m.is_triangular(); c.face_to_faces(0)
+        m.boundary_edges; m.interior_edges; m.is_triangular(); m.is_quad(); c.face_to_faces(0)
+        m.boundary_vertices; m.interior_vertices; m.is_vertex_on_border(0)
     else:
-        c.face_to_cells(0); c.vertex_to_cell(0)
+        c.face_to_cells(0); c.vertex_to_cell(0); c.cell_to_cell(0)
+        m.boundary_faces; m.interior_faces; m.boundary_vertices; m.is_tetrahedral()
 
 
 def apply_op(ed, op):
@@ -132,15 +195,16 @@ def apply_op(ed, op):
     else: raise AssertionError(k)
 
 
-def run_impl(case, watch=None):
-    """Runs the scenario. `watch(i, op, editor_mesh, 'before'|'after')` is called around every operation of a block.
-    Returns dict(m=input object, before=snapshot, res=result object|None, err=(kind, step)|None, same=res is m)."""
+def run_impl(case, watch=None, mesh=None, editor=None):
+    """Runs ONE editing block (`case['ops']`) on `mesh` (or on a freshly built object).
+    `watch(i, op, editor_mesh, 'before'|'after')` is called around every operation of the block.
+    Returns dict(m=input object, before=snapshot, res=result object|None, err=(kind, step)|None)."""
     M = _M()
     from mouette.mesh import subdivision as S
     t = case["t"]
     with warnings.catch_warnings():
         warnings.simplefilter("ignore")
-        m = build(case)
+        m = build(case) if mesh is None else mesh
         before = snap(m, t)
         if case.get("pre"): probe(m, t)
         err, res = None, None
@@ -161,7 +225,9 @@ def run_impl(case, watch=None):
                     err = (_exc(e), 0)
             else:
                 Ed = S.SurfaceSubdivision if t == "surf" else S.VolumeSubdivision
-                with Ed(m) as ed:
+                ed0 = editor if editor is not None else Ed(m)      # HISTORY: the same editor object may serve several blocks
+                out_editor = ed0
+                with ed0 as ed:
                     for i, op in enumerate(case["ops"]):
                         try:
                             if watch: watch(i, op, ed.mesh, "before")
@@ -172,7 +238,7 @@ def run_impl(case, watch=None):
                 res = ed.mesh
         except Exception as e:  # noqa   (raised by __enter__/__exit__)
             err = (_exc(e), -1)
-    return {"m": m, "before": before, "res": res, "err": err}
+    return {"m": m, "before": before, "res": res, "err": err, "editor": locals().get("out_editor")}
 
 
 # ------------------------------------------------------------------------------------------------
@@ -225,6 +291,14 @@ def conn_check_surface(m, nmax=10):
         want_b = sorted(k for k, e in enumerate(E) if len(e) == 2 and ((e in side_face) != ((e[1], e[0]) in side_face)))
         if sorted(m.boundary_edges) != want_b: bad.append(f"boundary_edges has {len(m.boundary_edges)} want {len(want_b)}")
         if m.is_triangular() != all(len(f) == 3 for f in F): bad.append("is_triangular wrong")
+        if m.is_quad() != all(len(f) == 4 for f in F): bad.append("is_quad wrong")
+        # boundary data (lazily cached on the mesh object)
+        if sorted(m.interior_edges) != sorted(set(range(len(E))) - set(want_b)): bad.append("interior_edges wrong")
+        bv = sorted({v for k in want_b for v in E[k]})
+        if sorted(int(v) for v in m.boundary_vertices) != bv: bad.append(f"boundary_vertices has {len(m.boundary_vertices)} want {len(bv)}")
+        if sorted(int(v) for v in m.interior_vertices) != sorted(set(range(nv)) - set(bv)): bad.append("interior_vertices wrong")
+        for v in vs:
+            if bool(m.is_vertex_on_border(v)) != (v in bv): bad.append(f"is_vertex_on_border({v}) wrong"); break
     except Exception as e:  # noqa
         bad.append(f"raises {type(e).__name__}: {e}")
     return bad
@@ -258,6 +332,13 @@ def conn_check_volume(m, nmax=10):
                 for b in range(a):
                     eid = c.edge_id(C[k][a], C[k][b])
                     if eid is None or keyed(*E[eid]) != keyed(C[k][a], C[k][b]): bad.append(f"edge_id of cell {k}"); break
+        # boundary data (lazily cached on the mesh object)
+        want_bf = sorted(i for i, f in enumerate(F) if sum(1 for cc in C if set(f) <= set(cc)) == 1)
+        if sorted(int(i) for i in m.boundary_faces) != want_bf: bad.append(f"boundary_faces has {len(m.boundary_faces)} want {len(want_bf)}")
+        if sorted(int(i) for i in m.interior_faces) != sorted(set(range(len(F))) - set(want_bf)): bad.append("interior_faces wrong")
+        bv = sorted({v for i in want_bf for v in F[i]})
+        if sorted(int(v) for v in m.boundary_vertices) != bv: bad.append(f"boundary_vertices has {len(m.boundary_vertices)} want {len(bv)}")
+        if not m.is_tetrahedral(): bad.append("is_tetrahedral wrong")
     except Exception as e:  # noqa
         bad.append(f"raises {type(e).__name__}: {e}")
     return bad
@@ -370,8 +451,11 @@ def vol6(V, c):
     return det3(vsub(V[c[1]], V[c[0]]), vsub(V[c[2]], V[c[0]]), vsub(V[c[3]], V[c[0]]))
 
 
+_CUR = {"rel": 1e-9}     # relative tolerance of the scenario being examined (float32 inputs: 3e-6)
+
+
 def close(a, b, scale=1.0):
-    return abs(float(a) - float(b)) <= 1e-9 * max(1.0, abs(float(scale))) + 1e-12
+    return abs(float(a) - float(b)) <= _CUR["rel"] * max(1.0, abs(float(scale))) + 1e-12
 
 
 def pclose(p, q):
@@ -443,6 +527,54 @@ def _opname(case, i):
 
 
 def oracle(case):
+    """The property stated on the real code. A scenario may consist of several editing blocks run one after the other
+    on the same mesh object (histories), with any representation of coordinates / elements."""
+    _CUR["rel"] = rel_tol(case)
+    try:
+        blocks = all_blocks(case)
+        if len(blocks) == 1 and not case.get("rep"):
+            return _oracle_block(case)
+        out, mesh, held, editor = [], None, [], None
+        t = case["t"]
+        for bi, ops in enumerate(blocks):
+            sub = dict(case, ops=ops, pre=(case.get("pre") if bi == 0 else case.get("probe_between", False)))
+            sub.pop("blocks", None)
+            if bi > 0: sub.pop("bad", None)
+            info = {}
+            fs = _oracle_block(sub, mesh=mesh, info=info, editor=(editor if case.get("reuse_editor") else None))
+            editor = info.get("editor")
+            if bi > 0:
+                fs = [dict(f, key=f["key"].replace("C13/", "C13/again/", 1)) if f["key"] != NONREG_KEY else f for f in fs]
+            out += fs
+            if not held: held.append(("input", info.get("m")))
+            if info.get("err") is not None or info.get("res") is None: break
+            held.append((f"result{bi}", info["res"]))
+            mesh = info["res"]
+            # every name the caller holds must denote a consistent mesh (checked by value, whatever object it is)
+            seen = set()
+            for name, obj in held:
+                if obj is None or id(obj) in seen: continue
+                seen.add(id(obj))
+                try:
+                    sn = snap(obj, t)
+                    bad = containers_ok(sn, t) or conn_check(obj, t)
+                except Exception as e:  # noqa
+                    bad = [f"unreadable: {type(e).__name__}"]
+                if bad and not any("result-invalid" in f["key"] or "connectivity" in f["key"] for f in fs):
+                    out.append({"key": f"C13/held-object/{name if name == 'input' else 'earlier-result'}/inconsistent-after-block",
+                                "what": f"after block {bi} the mesh held as `{name}` is inconsistent: {bad[0]}", "detail": str(blocks)[:300]})
+        cc = coords_class(case)
+        if cc != "float":
+            out = [dict(f, key=f["key"] + f"/coords:{cc}") if f["key"] != NONREG_KEY else f for f in out]
+        return out
+    finally:
+        _CUR["rel"] = 1e-9
+
+
+NONREG_KEY = "C13/triangulate/non-regular-complex"
+
+
+def _oracle_block(case, mesh=None, info=None, editor=None):
     t = case["t"]
     out = []
 
@@ -460,8 +592,9 @@ def oracle(case):
         else:
             log["newv"].append((i, op, st["b"], snap_raw(raw, t)))
 
-    r = run_impl(case, watch)
+    r = run_impl(case, watch, mesh=mesh, editor=editor)
     m, before, res, err = r["m"], r["before"], r["res"], r["err"]
+    if info is not None: info.update(m=m, res=res, err=err, editor=r.get("editor"))
     kind = _facekind(before["F"]) if t == "surf" else t
     multi = "seq" if len(case["ops"]) > 1 else "single"
 
@@ -577,7 +710,7 @@ def _collapse_non_regular(case, out):
     in two vertices that are not a common edge) the fixed diagonal B-D of the quad cut can be used twice / coincide with
     an existing edge; all symptoms of that are reported under ONE key."""
     if case["t"] == "surf" and out and not GS.regular_complex(case["F"]):
-        return [{"key": "C13/triangulate/non-regular-complex",
+        return [{"key": NONREG_KEY,
                  "what": "triangulating a manifold polygon surface in which two faces meet in two vertices that are not one common "
                          "edge yields a non-manifold result (the fixed diagonal B-D of the quad cut is used twice)",
                  "detail": "; ".join(o["key"] for o in out)[:500]}]
@@ -664,7 +797,7 @@ def _expected_surface(case, before, st0):
         elif k == "q3":
             tri_all(); F = len(lens); V, E = V + E + F, 2 * E + 3 * F; lens = [4] * (3 * F)
         elif k == "s6":
-            tri_all()
+            if op[1] > 0: tri_all()      # subdivide_triangles_6(0) is a no-op (nothing to refine, nothing triangulated)
             for _ in range(op[1]):
                 F = len(lens); V, E = V + E + F, 2 * E + 3 * F + 3 * F; lens = [3] * (6 * F)
     return {"VEF": (V, E, len(lens)), "lens": lens}
@@ -729,13 +862,23 @@ def _new_vertices_ok(op, b, a, t):
 # ------------------------------------------------------------------------------------------------
 def impl_observe(case):
     t = case["t"]
-    r = run_impl(case)
-    obs = {"err": r["err"], "res": None, "inp": None, "inp_conn_ok": None, "same_obj": r["res"] is r["m"]}
-    if r["res"] is not None:
-        obs["res"] = snap(r["res"], t)
+    mesh, m0, res, err, nops, editor = None, None, None, None, 0, None
+    for bi, ops in enumerate(all_blocks(case)):
+        sub = dict(case, ops=ops, pre=(case.get("pre") if bi == 0 else case.get("probe_between", False)))
+        r = run_impl(sub, mesh=mesh, editor=(editor if case.get("reuse_editor") else None))
+        editor = r.get("editor")
+        if m0 is None: m0 = r["m"]
+        res = r["res"]
+        if r["err"] is not None:
+            err = (r["err"][0], r["err"][1] + nops if r["err"][1] >= 0 else -1); break
+        if res is None: break
+        nops += len(ops); mesh = res
+    obs = {"err": err, "res": None, "inp": None, "inp_conn_ok": None, "same_obj": res is m0}
+    if res is not None:
+        obs["res"] = snap(res, t)
     try:
-        obs["inp"] = snap(r["m"], t)
-        obs["inp_conn_ok"] = not conn_check(r["m"], t)
+        obs["inp"] = snap(m0, t)
+        obs["inp_conn_ok"] = not conn_check(m0, t)
     except Exception as e:  # noqa
         obs["inp"] = f"unreadable:{type(e).__name__}"
     return obs
@@ -747,7 +890,7 @@ def _pt(v):
 
 def model_request(case):
     t = case["t"]
-    if case["ops"] == [["sdb"]]:
+    if any(b == [["sdb"]] for b in all_blocks(case)):
         return None          # composite of the deg-2 detection + fan splits: oracle-only (see report)
     toks = [t, str(len(case["V"]))] + [_pt(v) for v in case["V"]]
     if t == "poly":
@@ -756,9 +899,12 @@ def model_request(case):
         toks += [str(len(case["F"]))] + [" ".join([str(len(f))] + [str(v) for v in f]) for f in case["F"]]
     else:
         toks += [str(len(case["C"]))] + [" ".join([str(len(c))] + [str(v) for v in c]) for c in case["C"]]
-    toks.append(str(len(case["ops"])))
-    for op in case["ops"]:
-        toks.append(op[0] if len(op) == 1 else f"{op[0]} {op[1]}")
+    bl = all_blocks(case)
+    toks.append(str(sum(len(b) for b in bl) + len(bl) - 1))
+    for bi, b in enumerate(bl):
+        if bi > 0: toks.append("nb")          # block boundary: __exit__ (prepare) and a new __enter__
+        for op in b:
+            toks.append(op[0] if len(op) == 1 else f"{op[0]} {op[1]}")
     return " ".join(toks)
 
 
@@ -805,7 +951,7 @@ def order_free(case):
     subdivide_triangles_3quads leave an edge list that comes out of a `set`; a later pass that numbers its midpoints
     by that edge list inherits the set's order."""
     seen_set = False
-    for op in case["ops"]:
+    for op in all_ops(case):
         if op[0] in ("loop", "q3", "s6"):
             n = 1 if op[0] == "q3" else op[1]
             if n == 0: continue
@@ -844,7 +990,7 @@ def _cmp_mesh(case, mod, imp, t, label):
         if k == "E":
             if any(len(x) != 2 for x in a): return f"{label}: edge arity"
             a = [keyed(*x) for x in a]; b = [keyed(*x) for x in b]
-            set_made = any(o[0] == "q3" or (o[0] in ("loop", "s6") and o[1] > 0) for o in case["ops"])   # edge list = list(set)
+            set_made = any(o[0] == "q3" or (o[0] in ("loop", "s6") and o[1] > 0) for o in all_ops(case))   # edge list = list(set)
             if (sorted(a) != sorted(b)) if (free or set_made) else (a != b): return f"{label}: edge lists differ"
         elif k == "F":
             if free:
@@ -857,6 +1003,14 @@ def _cmp_mesh(case, mod, imp, t, label):
 
 
 def compare(case, model, impl):
+    _CUR["rel"] = rel_tol(case)
+    try:
+        return _compare(case, model, impl)
+    finally:
+        _CUR["rel"] = 1e-9
+
+
+def _compare(case, model, impl):
     t = case["t"]
     rep = parse_reply(model)
     if rep is None or rep["status"] == "bad-request": return "model rejected the request: " + model[:80]
@@ -885,8 +1039,16 @@ def nontrivial(case, obs):
 
 
 def classify(case, obs):
-    ks = [f"{case['t']}:{o[0]}" for o in case["ops"]]
-    ks.append(f"nops:{len(case['ops'])}")
+    ops = all_ops(case)
+    ks = [f"{case['t']}:{o[0]}" for o in ops]
+    ks.append(f"nops:{len(ops) if len(ops) < 6 else '6+'}")
+    nb = len(all_blocks(case))
+    ks.append(f"history:blocks={nb}" + ("+probe-between" if nb > 1 and case.get("probe_between") else ""))
+    if nb > 1 and case.get("reuse_editor"): ks.append("history:same-editor-object")
+    rep = case.get("rep") or {}
+    ks.append("rep:coords=" + rep.get("coords", "float")); ks.append("rep:elems=" + rep.get("elems", "list"))
+    if any(len(o) > 1 and o[0] in ("loop", "s6") and o[1] == 0 for o in ops): ks.append("param:zero-passes")
+    if any(b == [["sdb"]] for b in all_blocks(case)) and nb > 1: ks.append("history:sdb-then-block")
     ks.append("pre:" + ("queried" if case.get("pre") else "fresh"))
     ks.append("tagfam:" + case.get("tag", "?").split("+")[0].split("/")[0])
     if case["t"] == "surf":
@@ -900,7 +1062,7 @@ def classify(case, obs):
 
 
 def describe(case):
-    d = {k: case[k] for k in ("t", "ops", "pre", "tag") if k in case}
+    d = {k: case[k] for k in ("t", "ops", "blocks", "probe_between", "reuse_editor", "rep", "pre", "tag") if k in case}
     d["nV"] = len(case["V"]); d["n_elems"] = len(case.get("F") or case.get("C") or case.get("E"))
     return d
 
@@ -909,6 +1071,19 @@ def shrink(case, still_fails):
     def still(c):
         return GS.admissible(c) and still_fails(c)
     if "bad" in case: return case
+    if case.get("blocks"):
+        # drop later blocks first, then give up structural shrinking (ids of later blocks depend on earlier ones)
+        cur = case
+        while cur.get("blocks"):
+            trial = dict(cur, blocks=cur["blocks"][:-1])
+            if not trial["blocks"]: trial.pop("blocks")
+            if still(trial): cur = trial
+            else: break
+        if cur.get("blocks"): return cur
+        case = cur
+    if case.get("rep"):
+        trial = {k: v for k, v in case.items() if k != "rep"}
+        if still(trial): case = trial
     cur = case
     # drop operations (ids stay valid only when dropping from the end or an id-free op): try each, keep if still failing
     i = len(cur["ops"]) - 1
@@ -954,8 +1129,15 @@ def cases(rng, tier):
 
 
 def search_on_break(rng, broken, mismatches):
-    return [GS.surf_case(rng, max_faces=8, max_ops=2, budget_faces=200) for _ in range(150)] + \
-           [GS.vol_case(rng, max_cells=6, max_ops=3) for _ in range(60)] + [GS.poly_case(rng) for _ in range(30)]
+    """failing-input search when a theorem / translated site / the correspondence broke: small scenarios of every family,
+    with all the histories (several blocks, caches queried before and between) and representations switched on"""
+    out = list(GS.fixed_cases())
+    out += [GS.surf_case(rng, max_faces=8, max_ops=2, budget_faces=200, hist=0.5, reps=0.4) for _ in range(220)]
+    out += [GS.vol_case(rng, max_cells=6, max_ops=3, hist=0.5, reps=0.4) for _ in range(90)]
+    out += [GS.poly_case(rng) for _ in range(40)] + [GS.sdb_case(rng) for _ in range(20)]
+    for c in out:
+        if "bad" not in c: c["pre"] = True if rng.random() < 0.7 else c.get("pre", False)
+    return out
 
 
 MANIFEST = {
@@ -972,13 +1154,16 @@ MANIFEST = {
                    "(area_preserved_block), sub-faces are positive multiples of the parent; total signed volume preserved by the cell "
                    "fan and by the face-centre split (mesh level); old vertices stay in place through any block; new vertices are the "
                    "midpoints / barycentres; the input object IS the refined mesh after the repaired __exit__ (and a proved "
-                   "counter-example for the shipped one). The refinement tables of the source are re-extracted with Python ast on "
-                   "every run and bridged to the model by rfl. The model is tied to the code by a scenario correspondence (result "
+                   "counter-example for the shipped one); HISTORIES: after any sequence of editing blocks on one object the object is "
+                   "coherent and independent of whatever was cached on it before; border loops (orbits of the successor map on "
+                   "border sides) and connected components are in bijection through the 1->4 pass. The refinement tables, centre "
+                   "expressions, new-vertex numbering, enter/exit steps and fan index expressions of the source are re-extracted "
+                   "with Python ast on every run and bridged to the model. The model is tied to the code by a scenario correspondence (result "
                    "containers in order, input object afterwards) and an independent oracle (manifoldness, chi / border loops / "
                    "components via surface_stats, area, volume, connectivity answers vs direct inspection, input object state)."),
     "level_note": ("Trusted: Lean kernel + propext/Classical.choice/Quot.sound; the hand-written model (checked against the code on the "
                    "scenarios of each run only); the ast translator for the literal tables; float rounding not modelled. NOT proved "
-                   "(oracle/correspondence only): number of border loops and connected components of the result, the umbrella "
+                   "(oracle/correspondence only): border loops / components for operations other than the 1->4 pass, the umbrella "
                    "condition at vertices (full 2-manifoldness), orientation/border preservation for the quad cut (false in general: "
                    "open finding) and for 1->3 quads / 1->6, preservation of the counting hypotheses themselves by the operations "
                    "(so the Euler theorems are per operation, not per sequence, for the set-rebuilding operations), "
@@ -1101,11 +1286,174 @@ def translate():
         defs["faceUnpack"], defs["faceSet"], defs["faceAppend"] = unpack, st, app
         return f"unpack {unpack} set {st} append {app}"
 
+    # ---- round 3: centres (divisors), midpoint numbering / operation order, enter / exit steps, fan index expressions
+    from fractions import Fraction as _Fr
+    struct = {}
+
+    def divisor(expr):
+        """`X / len(f)` -> ('len',) ; `X / k` -> ('const', k) ; `c * X` with a float constant -> ('scale', num, den)"""
+        if isinstance(expr, ast.BinOp) and isinstance(expr.op, ast.Div):
+            r = expr.right
+            if isinstance(r, ast.Call) and getattr(r.func, "id", "") == "len": return ("len",)
+            if isinstance(r, ast.Constant) and isinstance(r.value, int) and not isinstance(r.value, bool) and r.value > 0: return ("const", r.value)
+        if isinstance(expr, ast.BinOp) and isinstance(expr.op, ast.Mult):
+            # `X * (1/len(f))`, `(1/k) * X`: the same centre written as a product (harmless rewrite)
+            for fac in (expr.left, expr.right):
+                if isinstance(fac, ast.BinOp) and isinstance(fac.op, ast.Div) and isinstance(fac.left, ast.Constant) and fac.left.value == 1:
+                    return divisor(ast.BinOp(left=ast.Name(id="X"), op=ast.Div(), right=fac.right))
+        if isinstance(expr, ast.BinOp) and isinstance(expr.op, ast.Mult) and isinstance(expr.left, ast.Constant) \
+                and isinstance(expr.left.value, (int, float)):
+            fr = _Fr(expr.left.value)
+            return ("scale", fr.numerator, fr.denominator)
+        raise T.TranslateError(f"centre expression not understood: {ast.unparse(expr)[:80]}")
+
+    def assign_of(fn, name):
+        hits = [n for n in ast.walk(fn) if isinstance(n, ast.Assign) and len(n.targets) == 1
+                and isinstance(n.targets[0], ast.Name) and n.targets[0].id == name]
+        if len(hits) != 1: raise T.TranslateError(f"expected exactly one assignment to `{name}`, found {len(hits)}")
+        return hits[0].value
+
+    def lean_div(d):
+        return ".len" if d[0] == "len" else f".const {d[1]}" if d[0] == "const" else f".scale {d[1]} {d[2]}"
+
+    def running_index_loop(fn, loop_pred, what):
+        """the loop that creates one vertex per edge / face: the index stored in the table must be the length of the new
+        vertex container taken in the same iteration BEFORE the append"""
+        loops = [n for n in ast.walk(fn) if isinstance(n, ast.For) and loop_pred(n)]
+        if len(loops) != 1: raise T.TranslateError(f"{what}: expected one loop, found {len(loops)}")
+        body = loops[0].body
+        idx_name, appended, stored = None, False, None
+        for st_ in body:
+            if isinstance(st_, ast.Assign) and len(st_.targets) == 1 and isinstance(st_.targets[0], ast.Name) \
+                    and isinstance(st_.value, ast.Call) and getattr(st_.value.func, "id", "") == "len" \
+                    and ast.unparse(st_.value.args[0]) == "newMeshData.vertices":
+                if appended: raise T.TranslateError(f"{what}: index taken after the append")
+                idx_name = st_.targets[0].id
+            elif isinstance(st_, ast.Expr) and isinstance(st_.value, ast.Call) and ast.unparse(st_.value.func) == "newMeshData.vertices.append":
+                appended = True
+            elif isinstance(st_, ast.Assign) and isinstance(st_.targets[0], ast.Subscript) \
+                    and ast.unparse(st_.targets[0].value) in ("half", "bary"):
+                v = st_.value
+                if isinstance(v, ast.Name): stored = ("name", v.id, appended)
+                elif isinstance(v, ast.Call) and getattr(v.func, "id", "") == "len" and ast.unparse(v.args[0]) == "newMeshData.vertices":
+                    stored = ("len", None, appended)
+                else: raise T.TranslateError(f"{what}: stored index `{ast.unparse(v)}` not understood")
+        if not appended or stored is None: raise T.TranslateError(f"{what}: append / table write not found")
+        if stored[0] == "name":
+            if stored[1] != idx_name: raise T.TranslateError(f"{what}: table stores `{stored[1]}`, which is not the running length")
+        elif stored[2]: raise T.TranslateError(f"{what}: len() taken after the append")
+        return loops[0]
+
+    def call_names(stmts):
+        out = []
+        for st_ in stmts:
+            if isinstance(st_, ast.Expr) and isinstance(st_.value, ast.Constant): continue      # docstring
+            out.append(ast.unparse(st_).split("\n")[0].replace(" ", ""))
+        return out
+
+    def site_centres():
+        fan = T.find_def(tree, "SurfaceSubdivision.split_face_as_fan")
+        q3 = T.find_def(tree, "SurfaceSubdivision.subdivide_triangles_3quads")
+        lp = T.find_def(tree, "SurfaceSubdivision.loop_subdivision")
+        se = T.find_def(tree, "split_edge")
+        cf = T.find_def(tree, "VolumeSubdivision.split_cell_as_fan")
+        fs = T.find_def(tree, "VolumeSubdivision.split_tet_from_face_center")
+        struct["fanDivisor"] = divisor(assign_of(fan, "pV"))
+        struct["quadsBaryDivisor"] = divisor(assign_of(q3, "pS"))
+        struct["quadsMidDivisor"] = divisor(assign_of(q3, "pC"))
+        struct["loopMidDivisor"] = divisor(assign_of(lp, "pC"))
+        struct["edgeMidDivisor"] = divisor(assign_of(se, "pC"))
+        struct["cellDivisor"] = divisor(assign_of(cf, "bary"))
+        struct["faceCentreDivisor"] = divisor(assign_of(fs, "pcenter"))
+        return {k: struct[k] for k in ("fanDivisor", "quadsBaryDivisor", "loopMidDivisor", "cellDivisor", "faceCentreDivisor")}
+
+    def site_numbering():
+        lp = T.find_def(tree, "SurfaceSubdivision.loop_subdivision")
+        q3 = T.find_def(tree, "SurfaceSubdivision.subdivide_triangles_3quads")
+        is_edge_loop = lambda n: "edges" in ast.unparse(n.iter) and "self.mesh" in ast.unparse(n.iter)
+        el = running_index_loop(lp, is_edge_loop, "loop_subdivision edge loop")
+        running_index_loop(q3, is_edge_loop, "subdivide_triangles_3quads edge loop")
+        running_index_loop(q3, lambda n: "enumerate(self.mesh.faces)" in ast.unparse(n.iter), "subdivide_triangles_3quads barycentre loop")
+        # operation order of loop_subdivision: triangulate first; per pass a fresh RawMeshData that receives the old vertices
+        body = [b for b in lp.body if not (isinstance(b, ast.Expr) and isinstance(b.value, ast.Constant))]
+        if not (isinstance(body[0], ast.Expr) and ast.unparse(body[0]) == "self.triangulate()"):
+            raise T.TranslateError("loop_subdivision does not start with self.triangulate()")
+        rep = [b for b in body[1:] if isinstance(b, ast.For)]
+        if len(body) != 2 or len(rep) != 1 or ast.unparse(rep[0].iter) != "range(n)":
+            raise T.TranslateError("loop_subdivision: expected `self.triangulate()` followed by one `for _ in range(n)`")
+        inner = call_names(rep[0].body)
+        if not (inner[0] == "newMeshData=RawMeshData()" and inner[1] == "newMeshData.vertices+=self.mesh.vertices"
+                and inner[-1] == "self.mesh=newMeshData" and el in ast.walk(rep[0])):
+            raise T.TranslateError(f"loop_subdivision pass: unexpected statement order {inner[:2]}..{inner[-1:]}")
+        q3b = call_names(q3.body)
+        if q3b[0] != "self.triangulate()" or q3b[-1] != "self.mesh=newMeshData":
+            raise T.TranslateError("subdivide_triangles_3quads: expected triangulate() first and the rebinding last")
+        s6 = T.find_def(tree, "SurfaceSubdivision.subdivide_triangles_6")
+        s6b = [b for b in s6.body if isinstance(b, ast.For)]
+        if len(s6b) != 1 or ast.unparse(s6b[0].iter) != "range(repeat)" or \
+                call_names(s6b[0].body) != ["self.subdivide_triangles_3quads()", "self.triangulate()"]:
+            raise T.TranslateError("subdivide_triangles_6: expected `for _ in range(repeat): 3quads(); triangulate()`")
+        struct["numbering"] = True
+        return "running length before append (loop edges, 3quads edges, 3quads barycentres); triangulate first; fresh data per pass"
+
+    def is_reinit(stmt, cls):
+        """`self._input.__init__(self.mesh)` or an equivalent spelling"""
+        u = ast.unparse(stmt).replace(" ", "")
+        return u in ("self._input.__init__(self.mesh)", f"{cls}.__init__(self._input,self.mesh)",
+                     "type(self._input).__init__(self._input,self.mesh)")
+
+    def site_block():
+        for cls, mesh_cls, clears in (("SurfaceSubdivision", "SurfaceMesh", ["face_corners"]),
+                                     ("VolumeSubdivision", "VolumeMesh", ["face_corners", "cell_corners", "cell_faces"])):
+            en = call_names(T.find_def(tree, f"{cls}.__enter__").body)
+            ex = [b for b in T.find_def(tree, f"{cls}.__exit__").body if not (isinstance(b, ast.Expr) and isinstance(b.value, ast.Constant))]
+            want_clear = [f"self.mesh.{c}.clear()" for c in clears]
+            if "self.mesh=RawMeshData(self.mesh)" not in en or en[-1] != "returnself" or \
+                    [x for x in en if x.endswith(".clear()")] != want_clear or \
+                    en.index("self.mesh=RawMeshData(self.mesh)") > en.index(want_clear[0]):
+                raise T.TranslateError(f"{cls}.__enter__: unexpected steps {en}")
+            exu = [ast.unparse(b).replace(" ", "") for b in ex]
+            if len(ex) != 3 or exu[0] != "self.mesh.prepare()" or not is_reinit(ex[1], mesh_cls) or exu[2] != "self.mesh=self._input":
+                raise T.TranslateError(f"{cls}.__exit__: unexpected steps {exu}")
+            ini = call_names(T.find_def(tree, f"{cls}.__init__").body)
+            if "self._input=mesh" not in ini or "self.mesh=mesh" not in ini:
+                raise T.TranslateError(f"{cls}.__init__ does not keep the caller's object")
+        se = call_names(T.find_def(tree, "split_edge").body)
+        if se[-2:] != ["polyline.connectivity.clear()", "returnpolyline"]:
+            raise T.TranslateError("split_edge does not end with connectivity.clear(); return polyline")
+        struct["block"] = True
+        return "enter: wrap + clear corners; exit: prepare, re-init the caller's object, rebind; split_edge clears connectivity"
+
+    def site_fan_index():
+        fan = T.find_def(tree, "SurfaceSubdivision.split_face_as_fan")
+        loops = [n for n in ast.walk(fan) if isinstance(n, ast.For) and isinstance(n.target, ast.Name) and n.target.id == "k"]
+        if len(loops) != 1 or not (isinstance(loops[0].iter, ast.Call) and getattr(loops[0].iter.func, "id", "") == "range"
+                                   and len(loops[0].iter.args) == 2):
+            raise T.TranslateError("fan loop `for k in range(lo, hi)` not found")
+        lo, hi = loops[0].iter.args
+        app = loops[0].body[0]
+        if not (isinstance(app, ast.Expr) and isinstance(app.value, ast.Call) and ast.unparse(app.value.func) == "self.mesh.faces.append"):
+            raise T.TranslateError("fan loop body is not a faces.append")
+        tri = app.value.args[0]
+        if not (isinstance(tri, ast.List) and len(tri.elts) == 3 and all(isinstance(e, ast.Subscript) and ast.unparse(e.value) == "f" for e in tri.elts[:2])
+                and ast.unparse(tri.elts[2]) == "iV"):
+            raise T.TranslateError("fan triangle is not [f[..], f[..], iV]")
+        first = [n for n in ast.walk(fan) if isinstance(n, ast.Assign) and isinstance(n.targets[0], ast.Subscript)
+                 and ast.unparse(n.targets[0].value) == "self.mesh.faces"]
+        if len(first) != 1 or ast.unparse(first[0].value).replace(" ", "") != "[f[0],f[1],iV]":
+            raise T.TranslateError("first fan triangle is not [f[0], f[1], iV]")
+        struct["fan"] = (T.lean_int_expr(lo), T.lean_int_expr(hi), T.lean_int_expr(tri.elts[0].slice), T.lean_int_expr(tri.elts[1].slice))
+        return f"range({ast.unparse(lo)}, {ast.unparse(hi)}) -> [f[{ast.unparse(tri.elts[0].slice)}], f[{ast.unparse(tri.elts[1].slice)}], iV]"
+
     for nm, fn in [("subdivision.py: loop_subdivision new_tri/new_edge tables", site_loop),
                    ("subdivision.py: subdivide_triangles_3quads new_face/new_edge tables", site_q3),
                    ("subdivision.py: triangulate_face quad cut", site_quad),
                    ("subdivision.py: split_cell_as_fan cells", site_cfan),
-                   ("subdivision.py: split_tet_from_face_center faces", site_fsp)]:
+                   ("subdivision.py: split_tet_from_face_center faces", site_fsp),
+                   ("subdivision.py: centre expressions (divisors) of fan / 3quads / loop / split_edge / cell fan / face split", site_centres),
+                   ("subdivision.py: new-vertex numbering and operation order of loop_subdivision / 3quads / 1->6", site_numbering),
+                   ("subdivision.py: __init__/__enter__/__exit__ of both editors, tail of split_edge", site_block),
+                   ("subdivision.py: split_face_as_fan range and index expressions", site_fan_index)]:
         recs.append(T.site(nm, fn))
     # always write a file (missing tables become empty so that the bridge lemmas fail rather than the build of the import)
     order = ["loopTris", "loopEdges", "loopLookups", "quads", "quadEdges", "quadLookups", "quadUnpack", "quadSet", "quadAppend", "quadDiagonal",
@@ -1118,4 +1466,19 @@ def translate():
         body += f"def {k} : {ty} := {lean(v)}\n"
     body += "\nend Mouette.Generated.C13\n"
     T.write_generated("C13Tables", body)
+    # second generated file: centres, numbering, block steps, fan index expressions
+    b2 = ("namespace Mouette.Generated.C13\n\n/-- how a centre is computed from the sum of the points -/\n"
+          "inductive Divisor where\n  | len | const (k : Nat) | scale (num den : Nat)\nderiving DecidableEq, Repr\n\n")
+    for k in ("fanDivisor", "quadsBaryDivisor", "quadsMidDivisor", "loopMidDivisor", "edgeMidDivisor", "cellDivisor", "faceCentreDivisor"):
+        b2 += f"def {k} : Divisor := {lean_div(struct[k]) if k in struct else '.const 0'}\n"
+    b2 += ("\n/-- the tables `half` / `bary` store the length of the new vertex container taken before the append, "
+           "refinements triangulate first and work on fresh data per pass -/\n"
+           f"def numberingIsRunningLength : Bool := {'true' if struct.get('numbering') else 'false'}\n"
+           "/-- enter = wrap + clear corners; exit = prepare, re-initialise the caller's object, rebind -/\n"
+           f"def blockStepsAsModelled : Bool := {'true' if struct.get('block') else 'false'}\n\n")
+    lo, hi, i0, i1 = struct.get("fan", ("0", "0", "0", "0"))
+    b2 += (f"def fanLo : Nat := {lo}\ndef fanHi (nf : Nat) : Nat := {hi}\n"
+           f"def fanFst (k nf : Nat) : Nat := {i0}\ndef fanSnd (k nf : Nat) : Nat := {i1}\n")
+    b2 += "\nend Mouette.Generated.C13\n"
+    T.write_generated("C13Struct", b2)
     return recs
